@@ -330,9 +330,12 @@ class Interp:
             if MULMODE[0] == "uf" and is_sym(a) and is_sym(b): return umul(A, B)
             return A * B
         if op == "fdiv":
+            if getattr(s, "assume_fdiv_nonzero", False):
+                CTX.hyp.append(B != 0); CTX.pre.append(B != 0)          # harness-declared precondition (listed in its assumptions): no feasibility query
+                return A / B
             try:
                 if s.ex.feasible([B == 0]): s.report("float-div-by-zero", "feasible", ins)
-            except RuntimeError:
+            except (RuntimeError, Inconclusive):
                 s.report("float-div-by-zero", "undecided", ins)
             s.ex.pc.append(B != 0)
             return A / B
